@@ -23,7 +23,7 @@ AmountOf(s, v) ==
 
 ClassOf(s, invs, selfhints) ==
   IF s.fwd THEN "cont"
-  ELSE IF s.meta # "ok" THEN "cont"
+  ELSE IF s.meta \notin {"ok", "swapped"} THEN "cont"   \* ("swapped": the amount record precedes the invoice record)
   ELSE IF s.inv = 0 THEN "cont"
   ELSE LET v == invs[s.inv] IN
        IF v.form # "ok" THEN "cont"            \* does not parse / bad signature
